@@ -21,4 +21,19 @@ PROPS = {
             "2 and 3 parties on the implementation (the only instantiations the runtime uses); theorems hold for every n >= 2",
         ],
     ),
+    "C12": dict(
+        coq_targets=["Props/C12.vo"],
+        harness=[dict(pkg="h_prims", bin="c12", cases={"quick": 1500, "thorough": 20000},
+                      extra={"quick": {"depth": 3}, "thorough": {"depth": 4}},
+                      checkers=["corr", "oracle"])],
+        allowed_axioms=[],
+        trusted_base=[
+            "parking_lot::Mutex makes each poll atomic (one poll = one model step); BytesMut as a byte list; Waker delivery",
+            "no hook needed (swimos_byte_channel public API, default feature `coop`)",
+        ],
+        assumptions=[
+            "implementation driven single-threaded by hand-polling; the model's interleavings are exactly sequences of polls",
+            "feature `coop` on (the default used by the runtime); the non-coop build is not exercised",
+        ],
+    ),
 }
